@@ -25,6 +25,7 @@ class Top(Elaboratable):
         self.extra = extra
         self.ctr = Signal(16)
         self.rename = False        # set by simulate(): the DUTs live in a clock domain that is not called "sync"
+        self.unclocked = ()        # names of purely combinational DUTs that are given a domain whose clock never ticks
 
     def elaborate(self, platform):
         m = Module()
@@ -37,12 +38,18 @@ class Top(Elaboratable):
             m.domains.vmon = cd = ClockDomain("vmon")
             m.d.comb += [cd.clk.eq(ClockSignal("sync")), cd.rst.eq(ResetSignal("sync"))]
             wrap = lambda sub: DomainRenamer("vmon")(sub)
+        if self.unclocked:
+            # a component specified as same-cycle pass-through needs no clock: whatever domain it is instantiated
+            # in may be stopped (clock gating) or unrelated to its neighbours' clock
+            from amaranth import ClockDomain, DomainRenamer
+            m.domains.vmon_stopped = stopped = ClockDomain("vmon_stopped")
+            m.d.comb += [stopped.clk.eq(0), stopped.rst.eq(0)]
         for i, item in enumerate(self.subs):
-            if isinstance(item, tuple):
-                name, sub = item
-                m.submodules[name] = wrap(sub)
+            name, sub = item if isinstance(item, tuple) else (f"dut{i}", item)
+            if name in self.unclocked:
+                m.submodules[name] = DomainRenamer("vmon_stopped")(sub)
             else:
-                m.submodules[f"dut{i}"] = wrap(item)
+                m.submodules[name] = wrap(sub)
         if self.extra is not None:
             self.extra(m)
         return m
